@@ -1,5 +1,26 @@
--- Root of the `PandoraModel` library: executable model, generated tables, property theorems.
+-- Root of the `PandoraModel` library: executable model, drivers, property theorems.
+-- (The generated tables are imported by the property files that need them.)
 import PandoraModel.Model.Basic
+import PandoraModel.Model.Flags
 import PandoraModel.Model.Machine
-import PandoraModel.Driver.C01
+import PandoraModel.Properties.Flags
 import PandoraModel.Properties.C01
+import PandoraModel.Properties.C02
+import PandoraModel.Properties.C03
+import PandoraModel.Properties.C04
+import PandoraModel.Properties.C05
+import PandoraModel.Properties.C06
+import PandoraModel.Properties.C07
+import PandoraModel.Properties.C08
+import PandoraModel.Properties.C09
+import PandoraModel.Properties.C10
+import PandoraModel.Properties.C11
+import PandoraModel.Properties.C12
+import PandoraModel.Properties.C13
+import PandoraModel.Properties.C14
+import PandoraModel.Properties.C15
+import PandoraModel.Properties.C16
+import PandoraModel.Properties.C17
+import PandoraModel.Properties.C18
+import PandoraModel.Properties.C19
+import PandoraModel.Properties.C20
